@@ -103,6 +103,7 @@ def golden_env(tier):
 
 
 PROPS = {
+    "C16": lambda *a: __import__("langgen").check("c16", "C16", "exploration", ["both schema versions are generated by the real pipeline and compiled; values are written with one version's generated writer and read with the other's generated reader (reflective checker); wire compatibility is judged by tag, kind and list-ness"], call="vgen.CheckEverything()")(*a),
     "C14": lambda *a: __import__("langgen").check("c14", "C14", "exploration", ["mutation operators are applied to one template schema per rule (every rule of the statement has at least one operator); rule-breaking schemas must be rejected with an error naming the element, everything accepted must build"])(*a),
     "C05": lambda *a: __import__("langgen").check("c05", "C05", "exploration", ["expected tags, kinds and values come from the harness' own schema description (which also renders the .spec text), never from the generator", "service code is compile-checked only"])(*a),
     "C15": lang_check("c15", "exploration", ["the printer/dumper of syntax trees in the harness is the reference for 'what the source says'"]),
